@@ -447,3 +447,315 @@ Proof.
   intros items H. unfold scan, loop_fuel.
   apply (scan_loop_items items [] _ H). pose proof (unparse_length items H). lia.
 Qed.
+
+(* ------------------------------------------------------------------------------------------ *)
+(* printing: the loop over a well-formed text executes its items one after the other *)
+
+Section PrintProofs.
+Variable V : Type.
+Variable render : list byte -> ckind -> V -> option (list byte).
+Variable show : V -> list byte.
+
+Notation exec := (exec V render show).
+Notation print_loop := (print_loop V render show).
+Notation print_to := (print_to V render show).
+Notation print_to_from := (print_to_from V render show).
+
+Fixpoint run_items (items : list item) (args : list V) (st : pstate) : pstate + pstate :=
+  match items with
+  | [] => inl st
+  | it :: r =>
+    match exec (tok_of it) args st with
+    | inl st' => run_items r args st'
+    | inr st' => inr st'
+    end
+  end.
+
+Definition outcome_of (r : pstate + pstate) : outcome :=
+  match r with inl st => ODone st | inr st => ORaise st end.
+
+Lemma print_loop_items : forall items pre args st fuel,
+  wf_items items = true -> length items < fuel ->
+  print_loop (pre ++ unparse items) args (length pre) st fuel = outcome_of (run_items items args st).
+Proof.
+  induction items as [|it r IH]; intros pre args st fuel Hwf Hf.
+  - destruct fuel as [|f]; [simpl in Hf; lia|]. cbn [Format.print_loop unparse map concat].
+    rewrite next_token_end. reflexivity.
+  - destruct fuel as [|f]; [simpl in Hf; lia|].
+    apply wf_items_cons in Hwf. destruct Hwf as [H1 [H2 H3]].
+    cbn [Format.print_loop]. rewrite next_token_item by assumption.
+    cbn [run_items].
+    assert (E : forall (X : outcome),
+      match tok_of it with
+      | TEnd => ODone st
+      | _ => X
+      end = X).
+    { intros X. destruct it; reflexivity. }
+    rewrite E. clear E.
+    destruct (exec (tok_of it) args st) as [st'|st']; [|reflexivity].
+    rewrite unparse_cons.
+    replace (pre ++ unparse_item it ++ unparse r) with ((pre ++ unparse_item it) ++ unparse r) by (rewrite app_assoc; reflexivity).
+    replace (length pre + length (unparse_item it)) with (length (pre ++ unparse_item it)) by (rewrite app_length; reflexivity).
+    apply IH; [assumption|simpl in Hf; lia].
+Qed.
+
+Lemma print_to_from_items : forall items args st,
+  wf_items items = true ->
+  print_to_from st (unparse items) args = outcome_of (run_items items args st).
+Proof.
+  intros items args st H. unfold Format.print_to_from, loop_fuel.
+  apply (print_loop_items items [] args st _ H). pose proof (unparse_length items H). lia.
+Qed.
+
+(* ---- what one item does ---- *)
+
+Lemma sink_write_eta : forall k pos t, sink_write k pos t = (fst (sink_write k pos t), length t).
+Proof. intros [s|s] pos t; reflexivity. Qed.
+
+(* the state after format_to/show_to wrote text t *)
+Definition wrote (st : pstate) (t : list byte) (idx' : nat) (c : call) : pstate :=
+  mkP (fst (sink_write (p_sink st) (p_pos st) t)) (p_pos st + length t) idx' (c :: p_calls st).
+
+Lemma exec_lit : forall s args st,
+  exec (TLit s) args st = inl (wrote st s (p_idx st) (CFmt (p_pos st) s None)).
+Proof.
+  intros. cbn [Format.exec step_if]. unfold do_format. rewrite sink_write_eta. reflexivity.
+Qed.
+
+Lemma exec_pct : forall args st,
+  exec TPct args st = inl (wrote st [PCT] (p_idx st) (CFmt (p_pos st) [PCT; PCT] None)).
+Proof.
+  intros. cbn [Format.exec step_if]. unfold do_format. rewrite sink_write_eta. reflexivity.
+Qed.
+
+Lemma exec_noarg : forall p c args st,
+  nth_error args (p_idx st) = None -> exec (TSpec p c) args st = inr st.
+Proof. intros p c args st H. cbn [Format.exec]. rewrite H. reflexivity. Qed.
+
+Definition arg_taken (st : pstate) : pstate := mkP (p_sink st) (p_pos st) (S (p_idx st)) (p_calls st).
+
+Lemma exec_conv : forall p c a args st,
+  In c std_convs -> nth_error args (p_idx st) = Some a ->
+  exec (TSpec p c) args st =
+  match render p (conv_kind c) a with
+  | Some t => inl (wrote (arg_taken st) t (S (p_idx st)) (CFmt (p_pos st) p (Some (conv_kind c, p_idx st))))
+  | None => inr (arg_taken st)
+  end.
+Proof.
+  intros p c a args st Hin Hnth. unfold std_convs in Hin.
+  repeat (destruct Hin as [<-|Hin]; [
+    unfold Format.exec; rewrite Hnth;
+    cbv [step_if Nat.eqb CH_p CH_c CH_s DOLLAR strchr_hit memb existsb print_float_convs print_int_convs orb conv_kind];
+    fold (arg_taken st);
+    destruct (render p _ a) as [t|]; cbv [do_format];
+    [rewrite (sink_write_eta (p_sink (arg_taken st))); cbn [p_idx arg_taken Nat.sub]; rewrite Nat.sub_0_r; reflexivity | reflexivity] |]).
+  destruct Hin.
+Qed.
+
+Lemma exec_dollar : forall p a args st,
+  nth_error args (p_idx st) = Some a ->
+  exec (TSpec p DOLLAR) args st
+  = inl (wrote (arg_taken st) (show a) (S (p_idx st)) (CShow (p_pos st) (p_idx st))).
+Proof.
+  intros p a args st Hnth. unfold Format.exec. rewrite Hnth.
+  cbv [step_if Nat.eqb CH_p CH_c CH_s DOLLAR strchr_hit memb existsb print_float_convs print_int_convs orb].
+  fold (arg_taken st). cbv [do_show].
+  rewrite (sink_write_eta (p_sink (arg_taken st))). cbn [p_idx arg_taken Nat.sub]. rewrite Nat.sub_0_r. reflexivity.
+Qed.
+
+(* ---- all items: the texts are written one after the other ---- *)
+
+Fixpoint write_all (k : sink) (pos : nat) (ts : list (list byte)) : sink :=
+  match ts with
+  | [] => k
+  | t :: r => write_all (fst (sink_write k pos t)) (pos + length t) r
+  end.
+
+Lemma skipn_cons_nth : forall (A : Type) n (l : list A) a r,
+  skipn n l = a :: r -> nth_error l n = Some a /\ skipn (S n) l = r.
+Proof.
+  intros A. induction n as [|n IH]; intros l a r H.
+  - destruct l; simpl in H; [discriminate|]. inversion H; subst. split; reflexivity.
+  - destruct l as [|x l]; [discriminate|]. simpl in H. apply IH in H. exact H.
+Qed.
+
+Lemma skipn_nil_nth : forall (A : Type) n (l : list A), skipn n l = [] -> nth_error l n = None.
+Proof.
+  intros A. induction n as [|n IH]; intros l H.
+  - destruct l; [reflexivity|discriminate].
+  - destruct l as [|x l]; [reflexivity|]. simpl in H. simpl. apply IH. exact H.
+Qed.
+
+Notation texts := (texts V render show).
+
+Lemma run_items_texts : forall items args st,
+  wf_items items = true ->
+  match texts items (skipn (p_idx st) args) with
+  | Some ts => exists st', run_items items args st = inl st'
+                 /\ p_sink st' = write_all (p_sink st) (p_pos st) ts
+                 /\ p_pos st' = p_pos st + length (concat ts)
+                 /\ p_idx st' = p_idx st + nconsumers items
+  | None => exists st', run_items items args st = inr st'
+  end.
+Proof.
+  induction items as [|it r IH]; intros args st Hwf.
+  - cbn [Format.texts run_items]. exists st. cbn [write_all concat length nconsumers filter]. repeat split; lia.
+  - apply wf_items_cons in Hwf. destruct Hwf as [H1 [_ H3]].
+    destruct it as [s| |f w p l c|].
+    + (* literal *)
+      cbn [Format.texts consumes item_text run_items tok_of]. rewrite exec_lit.
+      set (st1 := wrote st s (p_idx st) (CFmt (p_pos st) s None)).
+      specialize (IH args st1 H3). change (p_idx st1) with (p_idx st) in IH.
+      destruct (texts r (skipn (p_idx st) args)) as [ts|].
+      * destruct IH as [st' [E [A [B C]]]]. exists st'. split; [exact E|].
+        cbn [write_all concat]. rewrite A, B, C. cbn [st1 wrote p_sink p_pos p_idx].
+        unfold nconsumers. cbn [filter consumes]. rewrite app_length. repeat split; lia.
+      * exact IH.
+    + (* %% *)
+      cbn [Format.texts consumes item_text run_items tok_of]. rewrite exec_pct.
+      set (st1 := wrote st [PCT] (p_idx st) (CFmt (p_pos st) [PCT; PCT] None)).
+      specialize (IH args st1 H3). change (p_idx st1) with (p_idx st) in IH.
+      destruct (texts r (skipn (p_idx st) args)) as [ts|].
+      * destruct IH as [st' [E [A [B C]]]]. exists st'. split; [exact E|].
+        cbn [write_all concat]. rewrite A, B, C. cbn [st1 wrote p_sink p_pos p_idx].
+        unfold nconsumers. cbn [filter consumes]. rewrite app_length. repeat split; lia.
+      * exact IH.
+    + (* conversion *)
+      cbn [Format.texts consumes run_items tok_of].
+      destruct (skipn (p_idx st) args) as [|a args'] eqn:Esk.
+      * rewrite exec_noarg by (apply skipn_nil_nth; exact Esk). exists st. reflexivity.
+      * apply skipn_cons_nth in Esk. destruct Esk as [Hn Hs].
+        rewrite (exec_conv _ _ a) by (eauto using wf_conv_char).
+        cbn [item_text].
+        destruct (render (unparse_item (Conv f w p l c)) (conv_kind c) a) as [t|]; [|eexists; reflexivity].
+        set (st1 := wrote (arg_taken st) t (S (p_idx st)) _).
+        specialize (IH args st1 H3). change (p_idx st1) with (S (p_idx st)) in IH. rewrite Hs in IH.
+        destruct (texts r args') as [ts|].
+        -- destruct IH as [st' [E [A [B C]]]]. exists st'. split; [exact E|].
+           cbn [write_all concat]. rewrite A, B, C. cbn [st1 wrote arg_taken p_sink p_pos p_idx].
+           unfold nconsumers. cbn [filter consumes length]. rewrite app_length. repeat split; lia.
+        -- exact IH.
+    + (* %$ *)
+      cbn [Format.texts consumes run_items tok_of].
+      destruct (skipn (p_idx st) args) as [|a args'] eqn:Esk.
+      * rewrite exec_noarg by (apply skipn_nil_nth; exact Esk). exists st. reflexivity.
+      * apply skipn_cons_nth in Esk. destruct Esk as [Hn Hs].
+        rewrite (exec_dollar _ a) by exact Hn.
+        cbn [item_text].
+        set (st1 := wrote (arg_taken st) (show a) (S (p_idx st)) _).
+        specialize (IH args st1 H3). change (p_idx st1) with (S (p_idx st)) in IH. rewrite Hs in IH.
+        destruct (texts r args') as [ts|].
+        -- destruct IH as [st' [E [A [B C]]]]. exists st'. split; [exact E|].
+           cbn [write_all concat]. rewrite A, B, C. cbn [st1 wrote arg_taken p_sink p_pos p_idx].
+           unfold nconsumers. cbn [filter consumes length]. rewrite app_length. repeat split; lia.
+        -- exact IH.
+Qed.
+
+(* ---- the statements about print_to ---- *)
+
+Theorem print_to_done : forall items args k pos ts,
+  wf_items items = true -> texts items args = Some ts ->
+  exists st, print_to k pos (unparse items) args = ODone st
+    /\ p_sink st = write_all k pos ts
+    /\ p_pos st = pos + length (concat ts)
+    /\ p_idx st = nconsumers items.
+Proof.
+  intros items args k pos ts Hwf Ht. unfold Format.print_to.
+  rewrite print_to_from_items by exact Hwf.
+  pose proof (run_items_texts items args (mkP k pos 0 []) Hwf) as R.
+  cbn [p_idx skipn] in R. rewrite Ht in R. destruct R as [st' [E [A [B C]]]].
+  exists st'. rewrite E. cbn [outcome_of]. cbn [p_sink p_pos] in A, B. repeat split; assumption.
+Qed.
+
+Theorem print_to_raise : forall items args k pos,
+  wf_items items = true -> texts items args = None ->
+  exists st, print_to k pos (unparse items) args = ORaise st.
+Proof.
+  intros items args k pos Hwf Ht. unfold Format.print_to.
+  rewrite print_to_from_items by exact Hwf.
+  pose proof (run_items_texts items args (mkP k pos 0 []) Hwf) as R.
+  cbn [p_idx skipn] in R. rewrite Ht in R. destruct R as [st' E].
+  exists st'. rewrite E. reflexivity.
+Qed.
+
+Lemma texts_too_few : forall items args, length args < nconsumers items -> texts items args = None.
+Proof.
+  induction items as [|it r IH]; intros args H.
+  - unfold nconsumers in H. simpl in H. lia.
+  - unfold nconsumers in H. cbn [filter] in H. cbn [Format.texts].
+    destruct (consumes it).
+    + destruct args as [|a args']; [reflexivity|].
+      cbn [length] in H. rewrite (IH args') by (unfold nconsumers; lia).
+      destruct (item_text V render show it (Some a)); reflexivity.
+    + rewrite (IH args) by (unfold nconsumers; lia).
+      destruct (item_text V render show it None); reflexivity.
+Qed.
+
+Theorem too_few_arguments : forall items args k pos,
+  wf_items items = true -> length args < nconsumers items ->
+  exists st, print_to k pos (unparse items) args = ORaise st.
+Proof. intros. apply print_to_raise; [assumption|]. apply texts_too_few. assumption. Qed.
+
+(* with a libc that never fails and enough arguments there is a text for every item *)
+Lemma texts_enough : forall items args,
+  (forall p kd v, render p kd v <> None) -> nconsumers items <= length args ->
+  exists ts, texts items args = Some ts.
+Proof.
+  intros items args Hr. revert args. induction items as [|it r IH]; intros args H.
+  - exists []. reflexivity.
+  - unfold nconsumers in H. cbn [filter] in H. cbn [Format.texts].
+    destruct (consumes it) eqn:Ec.
+    + destruct args as [|a args']; [simpl in H; lia|].
+      destruct (IH args') as [ts Ets]; [unfold nconsumers; simpl in H; lia|]. rewrite Ets.
+      destruct it; try discriminate; cbn [item_text].
+      * destruct (render (unparse_item (Conv flags width prec len c)) (conv_kind c) a) eqn:Er; [eexists; reflexivity|].
+        exfalso. eapply Hr; eauto.
+      * eexists; reflexivity.
+    + destruct (IH args) as [ts Ets]; [unfold nconsumers; lia|]. rewrite Ets.
+      destruct it; try discriminate; cbn [item_text]; eexists; reflexivity.
+Qed.
+
+(* never outside the format text or the piece buffer *)
+Theorem print_to_in_bounds : forall items args k pos,
+  wf_items items = true ->
+  print_to k pos (unparse items) args <> OCrash /\ print_to k pos (unparse items) args <> OFuel.
+Proof.
+  intros items args k pos Hwf.
+  destruct (texts items args) as [ts|] eqn:Et.
+  - destruct (print_to_done items args k pos ts Hwf Et) as [st [E _]]. rewrite E. split; discriminate.
+  - destruct (print_to_raise items args k pos Hwf Et) as [st E]. rewrite E. split; discriminate.
+Qed.
+
+End PrintProofs.
+
+(* ---- the sinks ---- *)
+
+Lemma write_all_file : forall ts s pos, write_all (SFile s) pos ts = SFile (s ++ concat ts).
+Proof.
+  induction ts as [|t r IH]; intros s pos; cbn [write_all concat].
+  - rewrite app_nil_r. reflexivity.
+  - cbn [sink_write fst]. rewrite IH. rewrite app_assoc. reflexivity.
+Qed.
+
+Lemma write_all_string : forall ts s pos,
+  ts <> [] -> pos <= length s -> write_all (SString s) pos ts = SString (firstn pos s ++ concat ts).
+Proof.
+  induction ts as [|t r IH]; intros s pos Hne Hp; [contradiction|].
+  cbn [write_all concat sink_write fst].
+  destruct (Nat.leb_spec pos (length s)) as [_|Hbad]; [|lia].
+  destruct r as [|t2 r'].
+  - cbn [write_all concat]. rewrite app_nil_r. reflexivity.
+  - rewrite IH; [|discriminate|].
+    + assert (L : pos + length t = length (firstn pos s ++ t)).
+      { rewrite app_length, firstn_length. lia. }
+      rewrite L. rewrite firstn_all. rewrite app_assoc. reflexivity.
+    + rewrite app_length, firstn_length. lia.
+Qed.
+
+Lemma write_all_string_beyond : forall ts s pos,
+  length s < pos -> write_all (SString s) pos ts = SString s.
+Proof.
+  induction ts as [|t r IH]; intros s pos Hp; cbn [write_all]; [reflexivity|].
+  cbn [sink_write fst]. destruct (Nat.leb_spec pos (length s)) as [Hbad|_]; [lia|].
+  apply IH. lia.
+Qed.
